@@ -23,11 +23,9 @@ Fixpoint u16len_bytes (s : list N) (skip : nat) : Z :=
               end
   end.
 
-(* estimatePayeeRange *)
-Definition payee_range (t : transaction) (payee : list N) : rng :=
-  let startCol := p_col (r_end (d_rng (tx_date t))) + 1 + (match tx_status t with StNone => 0 | _ => 2 end) in
-  let line := p_line (r_start (d_rng (tx_date t))) in
-  mkRng (mkPos line startCol 0) (mkPos line (startCol + u16len_bytes payee 0) 0).
+(* the payee range recorded by the parser (Transaction.PayeeRange; it used to be estimated from the
+   date width: estimatePayeeRange) *)
+Definition payee_range (t : transaction) (payee : list N) : rng := tx_prng t.
 
 Inductive skind := KAccount | KCommodity | KPayee.
 
